@@ -144,9 +144,17 @@ class EqRoles(object):
         # recycle routine: calls create
         rec = [m for m in eq.methods.values() if m is not self.create and calls(m, self.create.name)]
         self.recycle = rec[0] if len(rec) == 1 else None
-        # timeout handler: calls kill
-        th = [m for m in eq.methods.values() if m is not self.kill and calls(m, self.kill.name)]
-        self.timeout = th[0] if len(th) == 1 else None
+        # timeout handler: the remaining routine the dispatch routine calls (not the in-process player, not the recycle routine);
+        # when the handling is written inline the dispatch routine itself plays the role
+        self.timeout = None
+        if self.dispatch is not None:
+            th = []
+            for n in ast.walk(self.dispatch.node):
+                if isinstance(n, ast.Call) and self_attr(n.func):
+                    m = eq.lookup(n.func.attr)
+                    if m is not None and m not in (self.pac, self.recycle, self.kill, self.create) and m not in th:
+                        th.append(m)
+            self.timeout = th[0] if len(th) == 1 else (self.dispatch if not th else None)
         for nm in ('target', 'dispatch', 'recycle', 'timeout'):
             if getattr(self, nm) is None:
                 raise AnalysisError('anchor-lost role=equalizer %s' % nm)
